@@ -1152,8 +1152,12 @@ func createNewCredential(constraints *Constraints, src, limitedCred []byte,
 		explicitPaths       = make(map[string]bool)
 	)
 
+	// array positions in the limited credential: one numbering for all fields (a second field asking for another
+	// element of the same array must not land on the first one's position).
+	positions := map[string]int{}
+
 	for _, f := range constraints.Fields {
-		jPaths, err := compactArrayPaths(f.Path, src)
+		jPaths, err := compactArrayPathsInto(f.Path, src, positions)
 		if err != nil {
 			return nil, err
 		}
@@ -1216,6 +1220,11 @@ func splitLast(text, split string) (string, string) {
 // unmentioned array elements removed. Input paths are in JSONPath syntax, while output paths are in dot-separated
 // syntax, eg, `foo.1.bar.3`.
 func compactArrayPaths(keys []string, src []byte) ([]*pathTransform, error) {
+	return compactArrayPathsInto(keys, src, map[string]int{})
+}
+
+// compactArrayPathsInto is compactArrayPaths with the array position bookkeeping kept by the caller.
+func compactArrayPathsInto(keys []string, src []byte, set map[string]int) ([]*pathTransform, error) {
 	paths, err := jsonpathkeys.ParsePaths(keys...)
 	if err != nil {
 		return nil, err
@@ -1227,8 +1236,6 @@ func compactArrayPaths(keys []string, src []byte) ([]*pathTransform, error) {
 	}
 
 	var jPaths []*pathTransform
-
-	set := map[string]int{}
 
 	for {
 		result, ok := eval.Next()
